@@ -26,7 +26,7 @@ func init() {
 	})
 	register(&propDef{
 		id:      "C38",
-		explain: "Structural necessary conditions of 'pipelined calls with a deadline return by the deadline': in the deadline call path of the pipelining client every blocking channel operation is a select that includes the call's timer (or has a default); once the timer case of a select was taken no further blocking channel operation is executed before the function returns, the returned error is ErrTimeout, and a work item that was never queued is given back; the queue-overflow error of the non-deadline call is only produced on the default branch of a non-blocking send. (R4) every value the connection's writer and reader goroutines store into a work item's error field is non-nil on the path of the store (a sentinel, or a value a branch found non-nil), so a failed item never looks answered. Not decided: actual latency, server stalls, goroutine scheduling.",
+		explain: "Structural necessary conditions of 'pipelined calls with a deadline return by the deadline': in the deadline call path of the pipelining client every blocking channel operation is a select that includes the call's timer (or has a default); once the timer case of a select was taken no further blocking channel operation is executed before the function returns, the returned error is ErrTimeout, and a work item that was never queued is given back; the queue-overflow error of the non-deadline call is only produced on the default branch of a non-blocking send. a queued work item is given back to the pool only after its completion was received (never on the timeout branch, where the connection goroutines still own it - the next caller would get it and receive the late answer to the timed-out request); (R4) every value the connection's writer and reader goroutines store into a work item's error field is non-nil on the path of the store (a sentinel, or a value a branch found non-nil), so a failed item never looks answered. Not decided: actual latency, server stalls, goroutine scheduling.",
 		run:     runC38,
 	})
 }
@@ -400,7 +400,7 @@ func runPipelineCaller(p *Prog, r *Report, prop string) {
 					}
 				case *ssa.Call:
 					if isCallTo(w, rel) {
-						if prop == "C04" {
+						if prop == "C04" || prop == "C38" || prop == "C37" {
 							note(x, st, "the work item is given back to the pool only if it was never queued or its completion was received", !st.Has(bQueued) || st.Has(bDone), w.Pos())
 						}
 						st.Set(bReleased)
@@ -436,7 +436,7 @@ func runPipelineCaller(p *Prog, r *Report, prop string) {
 						note(x, st, "a work item that was never queued is given back when the timer fires", st.Has(bReleased), ret.Pos())
 					}
 				}
-				if prop == "C04" && st.Has(bQueued) && !st.Has(bDone) {
+				if (prop == "C04" || prop == "C38" || prop == "C37") && st.Has(bQueued) && !st.Has(bDone) {
 					note(x, st, "a queued work item whose completion was not received is left to the connection goroutines", !st.Has(bReleased), ret.Pos())
 				}
 			},
@@ -466,6 +466,9 @@ func runPipelineCaller(p *Prog, r *Report, prop string) {
 			rule := "R4"
 			if prop == "C38" {
 				rule = "R1"
+			}
+			if prop == "C37" {
+				rule = "R-item"
 			}
 			r.Check(rule, funcName(fn)+": "+k, t.bad == 0, t.pos, fmt.Sprintf("%d of %d explored arrivals violate it", t.bad, t.n), t.wit...)
 		}
